@@ -309,6 +309,22 @@ def step (st : St) (line : String) : St × String :=
       if ¬ r.cors.deny ∧ ((req.headers.get hACRH).any (· ≥ 128) ∨ r.cors.allowHeaders.any (fun h => h.any (· ≥ 128)))
       then (st, "unsupported")
       else (st, fmtServeS st.scripts (r.serveHTTP env st.pc st.scripts req [])))
+  | ["nserve", rid, method, path, host, hdrs, accept, m2, p2] =>
+    -- the handler of the outer request serves a second request on the same router before it goes on: both are alive at
+    -- once; in the model contexts are values, so the outer request keeps exactly its own parameters
+    withRouter st rid (fun _ r =>
+      let req := mkReq method path host hdrs accept
+      if ¬ r.cors.deny ∧ ((req.headers.get hACRH).any (· ≥ 128) ∨ r.cors.allowHeaders.any (fun h => h.any (· ≥ 128)))
+      then (st, "unsupported")
+      else
+        let outer := r.serveHTTP env st.pc st.scripts req []
+        let s := fmtServeS st.scripts outer
+        match outer with
+        | (some c, _) =>
+          let inner := fmtServeS st.scripts (r.serveHTTP env st.pc st.scripts (mkReq m2 p2 "%_" "%-" "%!") [])
+          if s = "unsupported" ∨ inner = "unsupported" then (st, "unsupported")
+          else (st, s ++ " nested={" ++ inner ++ "} after=" ++ encM c.params)
+        | _ => (st, s))
   | ["url", rid, strict, pattern, params] =>
     withRouter st rid (fun _ r => (st, fmtUrl (r.url env (decBool strict) (decB pattern) (decM params))))
   | ["murl", pattern, params] => (st, fmtUrl (muxURL (decB pattern) (decM params)))
